@@ -11,6 +11,7 @@ import (
 	"strconv"
 	"strings"
 	"sync"
+	"sync/atomic"
 
 	"github.com/ogen-go/ogen/simrt"
 )
@@ -49,6 +50,8 @@ type callInfo struct {
 	Fault    *Fault
 	St       *simrt.Stream // the client task's stream
 	Rec      *CallRecord
+
+	srvCancel atomic.Pointer[context.CancelFunc] // cancels the serving side's request context
 }
 
 func infoFrom(ctx context.Context) *callInfo {
@@ -339,8 +342,14 @@ func (t *SimTransport) attempt(req *http.Request, ci *callInfo, name string, att
 			// like net/http: a response that still arrives wins; otherwise the response reader fails soon
 			writeErr = ev.err
 		case evCancel:
-			reqLink.Abort(context.Canceled)
+			// The client is gone: the server's body reads fail with the context error from now on (whether
+			// blocked or arriving later), its request context is cancelled as net/http does on disconnect, and
+			// its writes fail.
+			reqLink.AbortWrite(context.Canceled)
 			respLink.Abort(context.Canceled)
+			if c := ci.srvCancel.Load(); c != nil {
+				(*c)()
+			}
 			return nil, ev.err, false
 		}
 		if haveResp {
@@ -422,6 +431,7 @@ func (t *SimTransport) serve(clientCtx context.Context, in, out *link, side *Ser
 	// The server's context is its own: it is cancelled when the connection goes away.
 	sctx, cancel := context.WithCancel(context.Background())
 	defer cancel()
+	ci.srvCancel.Store(&cancel)
 	sctx = context.WithValue(sctx, srvKey{}, &srvInfo{St: st, Side: side, Call: ci})
 	r = r.WithContext(sctx)
 	r.RemoteAddr = "sim:1"
